@@ -30,6 +30,22 @@ type c06Step struct {
 type c06Case struct {
 	Spec  progen.Spec `json:"spec"`
 	Steps []c06Step   `json:"steps"`
+	CF    int         `json:"cf"` // initial //garble:controlflow directive of the fixed control-flow function (index into c06Directives)
+}
+
+// c06Directives are the parameters the control-flow function of every C06
+// program may carry; the "directive" edit moves to the next one. The last
+// entry asks for trash blocks, which garble builds from the functions of the
+// package's dependencies.
+var c06Directives = []string{
+	"flatten_passes=1 junk_jumps=2 block_splits=1",
+	"flatten_passes=2 flatten_hardening=xor,delegate_table",
+	"block_splits=max junk_jumps=4",
+	"flatten_passes=1 junk_jumps=1 trash_blocks=4",
+}
+
+func c06CFFile(pkg string, dir int) string {
+	return "package " + pkg + "\n\nimport \"strconv\"\n\n//garble:controlflow " + c06Directives[dir%len(c06Directives)] + "\nfunc CfZq(n int) string {\n\ts := 0\n\tfor i := 0; i < n; i++ {\n\t\tif i%3 == 0 {\n\t\t\ts += i\n\t\t} else {\n\t\t\ts ^= i << 1\n\t\t}\n\t}\n\treturn strconv.Itoa(s)\n}\n"
 }
 
 var c06LdValues = []string{"one", "two words", "k=v", ""}
@@ -37,7 +53,7 @@ var c06LdValues = []string{"one", "two words", "k=v", ""}
 // c06Cfgs are the configurations a history may visit; each has a config base,
 // and the shared cache starts as the union of all of them (so that a step
 // costs seconds instead of a std rebuild).
-var c06Cfgs = []string{"default", "tiny", "literals", "seed", "literals+tiny"}
+var c06Cfgs = []string{"default", "tiny", "literals", "seed", "literals+tiny", "ctrlflow", "modonly"}
 
 func c06Config(name string) h.Config {
 	switch name {
@@ -111,7 +127,10 @@ func c06Run(c c06Case) (v *verdict, labels []string, pattern string, nontrivial 
 	last := len(c.Spec.Pkgs) - 1
 	// -X targets and a tag-dependent file
 	st.files[filepath.Join(c.Spec.Pkgs[last].Dir, "zq_ld.go")] = "package " + c.Spec.Pkgs[last].Name + "\n\nvar ldTargetZq = \"default-target\"\n\nfunc LdTargetZq() string { return ldTargetZq }\n"
-	st.files["zq_ldmain.go"] = "package main\n\nimport ldp \"" + c.Spec.ImportPath(last) + "\"\n\nvar ldMainZq = \"default-main\"\n\nfunc init() { println(\"ld\", ldMainZq, ldp.LdTargetZq()) }\n"
+	st.files["zq_ldmain.go"] = "package main\n\nimport ldp \"" + c.Spec.ImportPath(last) + "\"\n\nvar ldMainZq = \"default-main\"\n\nfunc init() { println(\"ld\", ldMainZq, ldp.LdTargetZq(), ldp.CfZq(len(ldMainZq)+9)) }\n"
+	cfRel := filepath.Join(c.Spec.Pkgs[last].Dir, "zq_cf.go")
+	cfDir := c.CF
+	st.files[cfRel] = c06CFFile(c.Spec.Pkgs[last].Name, cfDir)
 	st.files["zq_tag_on.go"] = "//go:build zqtag\n\npackage main\n\nfunc init() { println(\"tag on\") }\n"
 	st.files["zq_tag_off.go"] = "//go:build !zqtag\n\npackage main\n\nfunc init() { println(\"tag off\") }\n"
 	src := filepath.Join(dir, "src")
@@ -130,6 +149,11 @@ func c06Run(c c06Case) (v *verdict, labels []string, pattern string, nontrivial 
 			st.edits++
 			rel := filepath.Join(pk.Dir, "zq_edit.go")
 			switch step.Kind {
+			case "directive":
+				// only the parameters of the //garble:controlflow directive change
+				cfDir++
+				rel = cfRel
+				st.files[rel] = c06CFFile(c.Spec.Pkgs[last].Name, cfDir)
 			case "comment":
 				st.files[rel] = fmt.Sprintf("package %s\n\n// edit number %d\n", pk.Name, st.edits)
 			case "func":
@@ -176,6 +200,9 @@ func c06Run(c c06Case) (v *verdict, labels []string, pattern string, nontrivial 
 		}
 		if step.LdX >= 0 {
 			cls += "+ldflags"
+		}
+		if cfg.ControlFlow {
+			cls += fmt.Sprintf("+dir%d", cfDir%len(c06Directives))
 		}
 		pat = append(pat, "build:"+cls)
 		labels = append(labels, "build:"+cls)
@@ -247,6 +274,7 @@ func TestC06(t *testing.T) {
 		var c c06Case
 		c.Spec = progen.Draw(t, progen.Options{MinPkgs: 3, MaxPkgs: 3, MinFeats: 2, MaxFeats: 5, NoExit: true})
 		c.Spec.Args = nil
+		c.CF = rapid.IntRange(0, len(c06Directives)-1).Draw(t, "cf")
 		n := rapid.IntRange(4, rc.Pick(6, 10)).Draw(t, "nsteps")
 		for i := 0; i < n; i++ {
 			var s c06Step
@@ -254,14 +282,14 @@ func TestC06(t *testing.T) {
 			if i == 0 {
 				s.Op = "build"
 			}
-			s.Cfg = rapid.SampledFrom([]string{"default", "default", "tiny", "tiny", "literals", "literals", "seed", "seed2", "seed2", "seed3", "seed3", "literals+tiny"}).Draw(t, "cfg")
+			s.Cfg = rapid.SampledFrom([]string{"default", "default", "tiny", "tiny", "literals", "literals", "seed", "seed2", "seed2", "seed3", "seed3", "literals+tiny", "ctrlflow", "ctrlflow", "ctrlflow", "modonly", "modonly"}).Draw(t, "cfg")
 			s.Tag = rapid.IntRange(0, 3).Draw(t, "tag") == 0
 			s.LdX = rapid.IntRange(-2, 3).Draw(t, "ldx")
 			if s.LdX < -1 {
 				s.LdX = -1
 			}
 			s.Pkg = rapid.IntRange(0, 2).Draw(t, "pkg")
-			s.Kind = rapid.SampledFrom([]string{"literal", "func", "comment"}).Draw(t, "kind")
+			s.Kind = rapid.SampledFrom([]string{"literal", "func", "comment", "directive"}).Draw(t, "kind")
 			c.Steps = append(c.Steps, s)
 		}
 		// two long seeds with a common 8-byte prefix are only interesting together:
